@@ -906,7 +906,7 @@ theorem stepCore_inv3 {s t : CS} {e : Ev} (h : stepCore s e = some t) (hi : Inv3
   | abandon c =>
     obtain ⟨hg, rfl⟩ := guard_eq_some.1 h
     simp only [Bool.and_eq_true, decide_eq_true_eq] at hg
-    exact ⟨hi.conn, hi.sends, hi.fault (hi.conn c hg.1.1.2)⟩
+    exact ⟨hi.conn, hi.sends, hi.fault (hi.conn c hg.1.1.1.2)⟩
   | _ =>
     simp only [stepCore, guard_eq_some] at h
     repeat' split at h
